@@ -38,7 +38,7 @@ func ruleCondDirect(p *Program, r *Reporter) {
 	if a == nil {
 		return
 	}
-	oc := p.Opcodes()
+	_ = p.Opcodes()
 	fn := a.compile
 	if len(fn.Params) < 2 {
 		r.Undecided("compile", p.Pos(fn.Pos()), "unexpected parameter list")
@@ -49,11 +49,12 @@ func ruleCondDirect(p *Program, r *Reporter) {
 	cond := map[string]token.Pos{}
 	for _, b := range fn.Blocks {
 		for _, ins := range b.Instrs {
-			c, ok := staticCalleeIs(ins, a.emit)
-			if !ok || len(c.Call.Args) < 2 {
+			es, ok := emitAt(p, a, ins)
+			if !ok {
 				continue
 			}
-			if oc.ssaName(c.Call.Args[1]) == "OpJumpIfFalse" {
+			c := es.call
+			if es.op == "OpJumpIfFalse" {
 				if cl := outerCase(p, fn, c.Pos()); cl != "" {
 					cond[cl] = c.Pos()
 				}
@@ -179,6 +180,12 @@ func directPart(v ssa.Value, node ssa.Value, depth int) string {
 		return "the part is obtained by asserting the dynamic type of a sub-expression (" + typeStr(x.AssertedType) + ")"
 	case *ssa.Phi:
 		return "the part is one of several alternatives chosen at compile time"
+	case *ssa.Call:
+		// the children as listed by a function that returns nothing but
+		// parts of the node it is given
+		if k, ok := returnsPartsOf(x.Call.StaticCallee()); ok && k < len(x.Call.Args) {
+			return directPart(x.Call.Args[k], node, depth+1)
+		}
 	case *ssa.Alloc:
 		// a local that was spilled: all stores must be direct
 		for _, ref := range *x.Referrers() {
@@ -191,6 +198,108 @@ func directPart(v ssa.Value, node ssa.Value, depth int) string {
 		return ""
 	}
 	return "the part is not a field of the case's node (" + v.String() + ")"
+}
+
+// returnsPartsOf: g takes a syntax-tree node (parameter k) and returns a slice
+// every element of which is a proper part of that node, selected from it by
+// fields, elements and map look-ups (or nil).
+var partsFnCache = map[*ssa.Function]int{}
+
+func returnsPartsOf(g *ssa.Function) (int, bool) {
+	if g == nil || len(g.Blocks) == 0 || g.Signature.Results().Len() != 1 {
+		return 0, false
+	}
+	if k, ok := partsFnCache[g]; ok {
+		return k, k >= 0
+	}
+	partsFnCache[g] = -1
+	if _, isSl := g.Signature.Results().At(0).Type().Underlying().(*types.Slice); !isSl {
+		return 0, false
+	}
+	var node *ssa.Parameter
+	k := -1
+	for i, pr := range g.Params {
+		if isASTish(pr.Type()) {
+			node, k = pr, i
+			break
+		}
+	}
+	if node == nil {
+		return 0, false
+	}
+	seen := map[ssa.Value]bool{}
+	var elemsOK func(v ssa.Value, d int) bool
+	elemsOK = func(v ssa.Value, d int) bool {
+		if seen[v] {
+			return true
+		}
+		seen[v] = true
+		if d > 40 {
+			return false
+		}
+		switch x := v.(type) {
+		case *ssa.Const:
+			return x.IsNil()
+		case *ssa.MakeSlice:
+			n, ok := constInt(x.Len)
+			return ok && n == 0
+		case *ssa.Phi:
+			for _, e := range x.Edges {
+				if !elemsOK(e, d+1) {
+					return false
+				}
+			}
+			return true
+		case *ssa.Call:
+			if _, ok := isBuiltinCall(x, "append"); ok {
+				return elemsOK(x.Call.Args[0], d+1) && elemsOK(x.Call.Args[1], d+1)
+			}
+		case *ssa.Slice:
+			al, ok := x.X.(*ssa.Alloc)
+			if !ok {
+				return false
+			}
+			// the argument array of a variadic append: every store into it
+			for _, ref := range *al.Referrers() {
+				switch y := ref.(type) {
+				case *ssa.IndexAddr:
+					for _, r2 := range *y.Referrers() {
+						st, ok := r2.(*ssa.Store)
+						if !ok || st.Addr != ssa.Value(y) {
+							return false
+						}
+						if directPart(st.Val, node, 0) != "" || !strictPart(st.Val, node, 0) {
+							return false
+						}
+					}
+				case *ssa.Slice, *ssa.DebugRef:
+				default:
+					return false
+				}
+			}
+			return true
+		case *ssa.UnOp:
+			// a local slice variable that was spilled
+			if al, ok := x.X.(*ssa.Alloc); ok && x.Op == token.MUL {
+				for _, ref := range *al.Referrers() {
+					if st, ok := ref.(*ssa.Store); ok && st.Addr == ssa.Value(al) && !elemsOK(st.Val, d+1) {
+						return false
+					}
+				}
+				return true
+			}
+		}
+		return false
+	}
+	for _, b := range g.Blocks {
+		if ret, ok := terminator(b).(*ssa.Return); ok {
+			if !elemsOK(returnOperand(ret, 0), 0) {
+				return 0, false
+			}
+		}
+	}
+	partsFnCache[g] = k
+	return k, true
 }
 
 // strictPart: v selects a field or element on its way back to node (it is a
@@ -714,6 +823,65 @@ func ruleFmtConst(p *Program, r *Reporter) {
 		}
 	}
 	fns := append([]*ssa.Function{}, p.Fns...)
+	// the repository's own formatting helpers: a function that hands one of its
+	// parameters on as the format (and is only ever called directly) is judged
+	// at its call sites
+	wrapper := map[*ssa.Function]int{}
+	formatIndex := func(cc *ssa.CallCommon) (int, bool) {
+		if idx, ok := printfLike[calleeFullName(cc)]; ok {
+			return idx, true
+		}
+		if idx, ok := wrapper[cc.StaticCallee()]; ok {
+			return idx, true
+		}
+		return 0, false
+	}
+	valueUse := map[*ssa.Function]bool{}
+	for _, fn := range fns {
+		for _, b := range fn.Blocks {
+			for _, ins := range b.Instrs {
+				cc := callOf(ins)
+				for _, op := range ins.Operands(nil) {
+					if op == nil || *op == nil {
+						continue
+					}
+					if f, ok := (*op).(*ssa.Function); ok && !(cc != nil && cc.Value == f) {
+						valueUse[f] = true
+					}
+				}
+			}
+		}
+	}
+	for changed := true; changed; {
+		changed = false
+		for _, fn := range fns {
+			if _, done := wrapper[fn]; done || valueUse[fn] || fnPkg(fn) == nil || !strings.HasPrefix(fnPkg(fn).Pkg.Path(), Mod) {
+				continue
+			}
+			for _, b := range fn.Blocks {
+				for _, ins := range b.Instrs {
+					cc := callOf(ins)
+					if cc == nil || cc.StaticCallee() == nil {
+						continue
+					}
+					idx, ok := formatIndex(cc)
+					if !ok || idx >= len(cc.Args) {
+						continue
+					}
+					if pa, ok := cc.Args[idx].(*ssa.Parameter); ok && pa.Parent() == fn {
+						for k, q := range fn.Params {
+							if q == pa {
+								if _, done := wrapper[fn]; !done {
+									wrapper[fn] = k
+									changed = true
+								}
+							}
+						}
+					}
+				}
+			}
+		}
+	}
 	for _, fn := range fns {
 		if fnPkg(fn) == nil || !strings.HasPrefix(fnPkg(fn).Pkg.Path(), Mod) {
 			continue
@@ -725,8 +893,12 @@ func ruleFmtConst(p *Program, r *Reporter) {
 					continue
 				}
 				full := calleeFullName(cc)
-				idx, ok := printfLike[full]
+				idx, ok := formatIndex(cc)
 				if !ok || idx >= len(cc.Args) {
+					continue
+				}
+				if k, ok := wrapper[fn]; ok && cc.Args[idx] == ssa.Value(fn.Params[k]) {
+					r.OkNT(siteKey(p, fn, ins.Pos(), "format of "+full+" is the caller's"), p.Pos(ins.Pos()), "the function hands its own format parameter on and is only called directly: judged at each of its call sites")
 					continue
 				}
 				root := fn
@@ -787,12 +959,61 @@ func ruleBodyState(p *Program, r *Reporter) {
 			}
 		}
 	}
+	// the body may be compiled by a part of the compiler that the case calls:
+	// the state is then set and put back there (and around the call)
+	var bodyFn *ssa.Function
+	var outer *ssa.Call
+	if body == nil {
+		for _, b := range fn.Blocks {
+			for _, ins := range b.Instrs {
+				c, ok := ins.(*ssa.Call)
+				if !ok || outerCase(p, fn, c.Pos()) != clause || body != nil {
+					continue
+				}
+				h := c.Call.StaticCallee()
+				if h == nil || h == fn || fnPkg(h) == nil || fnPkg(h).Pkg.Path() != Mod || !recvNamed(h, "", "Eval") {
+					continue
+				}
+				for _, hb := range h.Blocks {
+					for _, hi := range hb.Instrs {
+						if c2, ok := staticCalleeIs(hi, fn); ok && body == nil && len(c2.Call.Args) >= 2 {
+							// it compiles a node it was given
+							if _, isPrm := stripIfaceConv(c2.Call.Args[1]).(*ssa.Parameter); isPrm {
+								body, bodyFn, outer = c2, h, c
+							}
+						}
+					}
+				}
+			}
+		}
+	}
 	if body == nil {
 		r.Undecided("function-definition case", p.Pos(at), "the case does not compile a body")
 		return
 	}
 	before := map[string]token.Pos{}
 	after := map[string]bool{}
+	if bodyFn != nil {
+		for _, b := range bodyFn.Blocks {
+			for _, ins := range b.Instrs {
+				st, ok := ins.(*ssa.Store)
+				if !ok {
+					continue
+				}
+				owner, fld, ok := fieldOf(st.Addr)
+				if !ok || owner == nil || owner.Obj().Name() != "Eval" {
+					continue
+				}
+				switch {
+				case dominatesInstr(st, body):
+					before[fld] = st.Pos()
+				case dominatesInstr(body, st):
+					after[fld] = true
+				}
+			}
+		}
+		body = outer // for the stores of the case itself
+	}
 	for _, b := range fn.Blocks {
 		for _, ins := range b.Instrs {
 			st, ok := ins.(*ssa.Store)
@@ -864,48 +1085,103 @@ func tokenTests(pr *parserRoles) (curIs, peekIs *ssa.Function) {
 // recordsParseError: the instruction appends to the parser's error list, or
 // calls a method of the parser which does so on every path to its returns.
 func recordsParseError(pr *parserRoles, ins ssa.Instruction) bool {
-	isRecord := func(in ssa.Instruction) bool {
-		st, ok := in.(*ssa.Store)
-		if !ok || fieldKey(st.Addr) != pr.errorField {
-			return false
-		}
-		_, isApp := isBuiltinCall(st.Val, "append")
-		return isApp
-	}
-	if isRecord(ins) {
+	return recordsParseErrorD(pr, ins, 0)
+}
+
+func recordsParseErrorD(pr *parserRoles, ins ssa.Instruction, depth int) bool {
+	if isErrorRecord(pr, ins) {
 		return true
 	}
 	c, ok := ins.(*ssa.Call)
-	if !ok {
+	if !ok || depth > 3 {
 		return false
 	}
 	cal := c.Call.StaticCallee()
 	if cal == nil || len(cal.Blocks) == 0 || !recvNamed(cal, "parser", "Parser") {
 		return false
 	}
-	var recBlocks []*ssa.BasicBlock
-	for _, b := range cal.Blocks {
-		for _, in := range b.Instrs {
-			if isRecord(in) {
-				recBlocks = append(recBlocks, b)
-			}
-		}
-	}
+	recBlocks := recordingBlocks(pr, cal, depth)
 	for _, b := range cal.Blocks {
 		if _, ok := terminator(b).(*ssa.Return); !ok {
 			continue
 		}
-		dom := false
-		for _, rb := range recBlocks {
-			if rb == b || rb.Dominates(b) {
-				dom = true
-			}
-		}
-		if !dom {
+		if !dominatedByOneOf(recBlocks, b) {
 			return false
 		}
 	}
 	return len(recBlocks) > 0
+}
+
+func isErrorRecord(pr *parserRoles, in ssa.Instruction) bool {
+	st, ok := in.(*ssa.Store)
+	if !ok || fieldKey(st.Addr) != pr.errorField {
+		return false
+	}
+	_, isApp := isBuiltinCall(st.Val, "append")
+	return isApp
+}
+
+// recordingBlocks: the blocks of cal in which an error is recorded (directly
+// or by a method that always records one).
+func recordingBlocks(pr *parserRoles, cal *ssa.Function, depth int) []*ssa.BasicBlock {
+	var recBlocks []*ssa.BasicBlock
+	for _, b := range cal.Blocks {
+		for _, in := range b.Instrs {
+			if recordsParseErrorD(pr, in, depth+1) {
+				recBlocks = append(recBlocks, b)
+				break
+			}
+		}
+	}
+	return recBlocks
+}
+
+func dominatedByOneOf(bs []*ssa.BasicBlock, b *ssa.BasicBlock) bool {
+	for _, rb := range bs {
+		if rb == b || rb.Dominates(b) {
+			return true
+		}
+	}
+	return false
+}
+
+// recordsWhenResult: cal has a boolean result, returns only constants, and
+// every return of the constant `val` comes after an error was recorded: a
+// caller that sees `val` knows the script has been rejected.
+func recordsWhenResult(pr *parserRoles, cal *ssa.Function) (val bool, ok bool) {
+	if cal == nil || len(cal.Blocks) == 0 || !recvNamed(cal, "parser", "Parser") || cal.Signature.Results().Len() != 1 {
+		return false, false
+	}
+	if b, isB := cal.Signature.Results().At(0).Type().Underlying().(*types.Basic); !isB || b.Kind() != types.Bool {
+		return false, false
+	}
+	recBlocks := recordingBlocks(pr, cal, 0)
+	if len(recBlocks) == 0 {
+		return false, false
+	}
+	for _, cand := range []bool{false, true} {
+		good, n := true, 0
+		for _, b := range cal.Blocks {
+			ret, isRet := terminator(b).(*ssa.Return)
+			if !isRet {
+				continue
+			}
+			c, isC := returnOperand(ret, 0).(*ssa.Const)
+			if !isC || c.Value == nil || c.Value.Kind() != constant.Bool {
+				return false, false
+			}
+			if constant.BoolVal(c.Value) == cand {
+				n++
+				if !dominatedByOneOf(recBlocks, b) {
+					good = false
+				}
+			}
+		}
+		if good && n > 0 {
+			return cand, true
+		}
+	}
+	return false, false
 }
 
 func ruleSeenToken(p *Program, r *Reporter) {
@@ -1086,6 +1362,30 @@ func ruleSeenToken(p *Program, r *Reporter) {
 							}
 						}
 						succs := bl.Succs
+						// `if !p.descend() { return nil }`: the helper's result says
+						// that the error has been recorded
+						if iff, ok := terminator(bl).(*ssa.If); ok && !rec && len(bl.Succs) == 2 {
+							cond, neg := iff.Cond, false
+							if u, ok := cond.(*ssa.UnOp); ok && u.Op == token.NOT {
+								cond, neg = u.X, true
+							}
+							if cl, ok := cond.(*ssa.Call); ok {
+								if val, ok := recordsWhenResult(pr, cl.Call.StaticCallee()); ok {
+									recIdx := 0 // the successor on which the result is `val`
+									if val == neg {
+										recIdx = 1
+									}
+									for si, s := range bl.Succs {
+										r2 := rec || si == recIdx
+										if !seen[fwdState{s, r2}] {
+											seen[fwdState{s, r2}] = true
+											fwd(s, 0, r2)
+										}
+									}
+									return
+								}
+							}
+						}
 						if nonNil != nil {
 							if iff, ok := terminator(bl).(*ssa.If); ok {
 								if bo, ok := iff.Cond.(*ssa.BinOp); ok && (bo.Op == token.EQL || bo.Op == token.NEQ) {
@@ -2728,7 +3028,7 @@ func ruleEmitSet(p *Program, r *Reporter) {
 	if a == nil {
 		return
 	}
-	oc := p.Opcodes()
+	_ = p.Opcodes()
 	got := map[string]map[string]token.Pos{}
 	for f := range p.Reachable(a.compile) {
 		if fnPkg(f) == nil || fnPkg(f).Pkg.Path() != Mod {
@@ -2736,11 +3036,12 @@ func ruleEmitSet(p *Program, r *Reporter) {
 		}
 		for _, b := range f.Blocks {
 			for _, ins := range b.Instrs {
-				c, ok := staticCalleeIs(ins, a.emit)
-				if !ok || len(c.Call.Args) < 2 {
-					continue
+				es, ok := emitAt(p, a, ins)
+				if !ok || isEmitHelper(p, a, f) {
+					continue // a wrapper of the emitter is read at its call sites
 				}
-				name := oc.ssaName(c.Call.Args[1])
+				c := es.call
+				name := es.op
 				if name == "" {
 					continue // selected through a table: R-OPMAP's subject
 				}
@@ -2845,4 +3146,18 @@ func ruleCutset(p *Program, r *Reporter) {
 		}
 	}
 	r.Info(fmt.Sprintf("%d Trim/TrimLeft/TrimRight call(s) in the library", n), "-", "")
+}
+
+// stripIfaceConv: v without the conversions between interface types.
+func stripIfaceConv(v ssa.Value) ssa.Value {
+	for {
+		switch x := v.(type) {
+		case *ssa.ChangeInterface:
+			v = x.X
+		case *ssa.MakeInterface:
+			v = x.X
+		default:
+			return v
+		}
+	}
 }
